@@ -17,7 +17,7 @@ update, field by field) — the chain-level value statement is evaluated on ever
 chain by the correspondence run (`exactFields`) and is not proved: partial.
 -/
 namespace Nri.Props.C05
-open Nri Nri.Api Nri.Result Nri.Ledger
+open Nri Nri.NApi Nri.Result Nri.Ledger
 
 theorem updWF_init (st : State) (h1 : st.updates = []) (h2 : st.own = none) : UpdWF st :=
   ⟨by simp [ids, h1], by simp [ids, h1], by simp [h2]⟩
